@@ -119,6 +119,7 @@ type sessCfg struct {
 	RRC     string `json:"rrc"`   // "no" | "default" (cluster id = router id) | "explicit" (cluster id 7)
 	Other   bool   `json:"other"` // a session with a second peer (same VRF, same local AS) is established throughout
 	Active  bool   `json:"active"` // the peer is not passive: its own FSM is handed the connections and used for every session
+	V6Only  bool   `json:"v6only"` // only the IPv6 address family is configured
 }
 
 type sessOpen struct {
@@ -200,6 +201,8 @@ type session struct {
 	nsess   int
 	other   *vconn // connection of the second peer's session, if any
 	peerID  uint32 // BGP identifier of the last OPEN the peer sent
+	noAP    bool   // the OPEN being built leaves out the add-path capability
+	lostIn  string // state in which the current connection was lost without a NOTIFICATION ("" = it was not)
 }
 
 func newSession(cfg sessCfg) *session {
@@ -225,6 +228,9 @@ func newSession(cfg sessCfg) *session {
 		KeepAlive: time.Duration(cfg.Hold) * time.Second / 3, IPv4: af(), IPv6: af(), PeerRoleStrictMode: cfg.Strict}
 	if cfg.Role != "none" && cfg.Role != "" {
 		pc.PeerRole = sessRoleConfig(cfg.Role)
+	}
+	if cfg.V6Only {
+		pc.IPv4 = nil
 	}
 	if cfg.RRC == "default" || cfg.RRC == "explicit" {
 		pc.RouteReflectorClient = true
@@ -313,7 +319,7 @@ func (s *session) openBytes(o sessOpen) []byte {
 	if o.Role != "none" {
 		caps = append(caps, wire.Cap{Code: 9, Value: []byte{roleCap[o.Role]}})
 	}
-	if s.cfg.AddPath {
+	if s.cfg.AddPath && !s.noAP {
 		caps = append(caps, wire.Cap{Code: 69, Value: []byte{0, 1, 1, 2, 0, 2, 1, 2}}) // we send several paths for both families
 	}
 	return wire.Header(wire.TypeOpen, wire.OpenBody(o.Version, as, o.Hold, id, caps))
@@ -440,6 +446,9 @@ func (s *session) updateBytes(name string, u sessUpd) []byte {
 		body = wire.UpdateBody(nil, cat(origin, nh, lp), nlri)
 	case "noNextHop":
 		body = wire.UpdateBody(nil, cat(origin, aspath, lp), nlri)
+	case "mpNH32short":
+		v := append([]byte{0, 2, 1, 32}, []byte{0x20, 0x01, 0x0d, 0xb8, 0, 0, 0, 0, 0, 0, 0, 0, 0, 0, 0, 0xc9, 0xfe, 0x80, 0, 0}...)
+		body = wire.UpdateBody(nil, cat(wire.Attr(0x80, wire.AttrMPReach, v, false), s.validAttrs(true)), nil)
 	case "noAttrs":
 		body = wire.UpdateBody(nil, nil, nlri)
 	case "noNextHopMP": // IPv4 NLRI next to an MP_REACH_NLRI: the IPv6 next hop in there is not the NEXT_HOP of the IPv4 routes
@@ -532,8 +541,10 @@ func (s *session) observe() sessState {
 	f := s.fsm()
 	if f != nil {
 		st := f.State
-		if closed && (st == "active" || st == "connect") {
-			st = "idle" // RFC 4271: OpenSent goes to Active when the connection fails; no session either way
+		if closed && (st == "active" || st == "connect") && (s.cfg.Active || s.lostIn == "OpenSent") {
+			// an active peer's FSM starts over on its own; RFC 4271 sends OpenSent to Active when the connection fails. Everything else
+			// has to end in Idle: the FSM of an accepted connection must not start dialling
+			st = "idle"
 		}
 		switch st {
 		case "idle", "cease":
@@ -787,6 +798,7 @@ func init() {
 				s = newSession(cfg)
 			case "Connect":
 				s.conn = newVconn(net.IPv4(10, 0, 0, 200).To4(), s.peerIP)
+				s.lostIn = ""
 				s.asn4, s.addpath = false, false
 				s.nsess++
 				if s.cfg.Active {
@@ -809,8 +821,9 @@ func init() {
 				malformedEarly = o.Version != 4 || o.ID == "zero"
 				if exp.St != "Idle" {
 					s.asn4 = o.AS4 != "none"
-					s.addpath = s.cfg.AddPath
+					s.addpath = st.Bool("ap") // negotiated: the configuration wants it and the OPEN advertises it
 				}
+				s.noAP = st.Bool("noap")
 				s.conn.peerSend(s.openBytes(o))
 			case "RecvKeepalive":
 				s.conn.peerSend(wire.Header(wire.TypeKeepalive, nil))
@@ -868,6 +881,7 @@ func init() {
 						Want: fmt.Sprintf("at least %d KEEPALIVEs in %d s (hold time %d s)", secs/2, secs, exp.Hold), Got: got.keepalives - before}
 				}
 			case "ConnLost":
+				s.lostIn = st.Str("from")
 				s.conn.mu.Lock()
 				s.conn.peerGone = true
 				s.conn.cond.Broadcast()
